@@ -334,6 +334,12 @@ func runC06(t *testing.T, sc *vnet.Scenario) (res c06Result) {
 				if !(w.Size >= w.N) {
 					res.fullWindowOnly = false
 				}
+				// ... and without a ping of its own waiting for an answer:
+				// with the pong timer armed the window-full wait does end
+				// (it serves that timer), so staying open is something else.
+				if mon.pingOutstanding(map[string]int{"client": 0, "server": 1}[name]) {
+					res.fullWindowOnly = false
+				}
 			}
 			if len(open) > 0 {
 				res.violation = fmt.Sprintf("half-open connection: %v after the first failure: %s", limit, strings.Join(open, "; "))
